@@ -660,32 +660,34 @@ Proof.
     cbn [flat_map fst snd e_get]. rewrite d_get_emit. specialize (IHm Hm).
     destruct (k =? q) eqn:E.
     + apply N.eqb_eq in E. subst q. destruct v; [reflexivity|].
-      rewrite IHm, (e_get_none_above k m Hf). reflexivity.
+      etransitivity; [exact IHm|]. rewrite (e_get_none_above k m Hf). reflexivity.
     + destruct v; exact IHm.
   - intros m Hd. cbn [keys map fst] in Hd. pose proof Hd as Hd0. apply ksorted_tail in Hd as [Hd Hfd].
     induction m as [|[mk mv] m IHm]; intros Hm.
     + rewrite merge_iter_nil_r. reflexivity.
     + unfold esorted in Hm. cbn [map fst] in Hm. pose proof Hm as Hm0. apply ksorted_tail in Hm as [Hm Hfm].
       rewrite merge_iter_cons. destruct (pk <? mk) eqn:E1.
-      * apply N.ltb_lt in E1. cbn [d_get]. rewrite (IHd _ Hd Hm0).
-        destruct (pk =? q) eqn:E; [|reflexivity].
-        apply N.eqb_eq in E. subst q.
-        rewrite (e_get_none_above pk ((mk, mv) :: m)); [reflexivity|].
-        cbn [map fst]. constructor; [exact E1|]. apply (Forall_lt_trans pk mk); [lia|exact Hfm].
+      * apply N.ltb_lt in E1. cbn [d_get e_get].
+        destruct (pk =? q) eqn:E.
+        -- apply N.eqb_eq in E. subst q.
+           replace (mk =? pk) with false by (symmetry; apply N.eqb_neq; lia).
+           rewrite (e_get_none_above pk m) by (apply (Forall_lt_trans pk mk); [lia|exact Hfm]). reflexivity.
+        -- etransitivity; [exact (IHd ((mk, mv) :: m) Hd Hm0)|]. reflexivity.
       * apply N.ltb_ge in E1. destruct (mk <? pk) eqn:E2.
         -- apply N.ltb_lt in E2. rewrite d_get_emit. specialize (IHm Hm). cbn [e_get].
            destruct (mk =? q) eqn:E.
            ++ apply N.eqb_eq in E. subst q. destruct mv; [reflexivity|].
-              rewrite IHm, (e_get_none_above mk m Hfm).
+              etransitivity; [exact IHm|]. rewrite (e_get_none_above mk m Hfm).
               apply d_get_none_above. cbn [keys map fst]. constructor; [exact E2|].
               apply (Forall_lt_trans mk pk); [lia|exact Hfd].
            ++ destruct mv; exact IHm.
         -- apply N.ltb_ge in E2. assert (mk = pk) by lia. subst mk.
-           rewrite d_get_emit. cbn [e_get d_get]. rewrite (IHd _ Hd Hm).
+           rewrite d_get_emit. cbn [e_get d_get].
            destruct (pk =? q) eqn:E.
            ++ apply N.eqb_eq in E. subst q. destruct mv; [reflexivity|].
+              etransitivity; [exact (IHd m Hd Hm)|].
               rewrite (e_get_none_above pk m Hfm). apply d_get_none_above, Hfd.
-           ++ destruct mv; reflexivity.
+           ++ destruct mv; exact (IHd m Hd Hm).
 Qed.
 
 Lemma keys_emit_lb x k v : x < k -> Forall (N.lt x) (keys (emit k v)).
@@ -703,10 +705,10 @@ Proof.
     + rewrite merge_iter_nil_r. exact Hd.
     + cbn [map fst] in Hm. inversion Hm as [|? ? Hmk Hm']; subst.
       rewrite merge_iter_cons. destruct (pk <? mk).
-      * cbn [keys map fst]. constructor; [exact Hpk|]. apply (IHd _ Hd' Hm).
+      * cbn [keys map fst]. constructor; [exact Hpk|]. apply (IHd ((mk, mv) :: m) Hd' Hm).
       * destruct (mk <? pk).
         -- rewrite keys_app. apply Forall_app. split; [apply keys_emit_lb, Hmk | apply IHm, Hm'].
-        -- rewrite keys_app. apply Forall_app. split; [apply keys_emit_lb, Hmk | apply (IHd _ Hd' Hm')].
+        -- rewrite keys_app. apply Forall_app. split; [apply keys_emit_lb, Hmk | apply (IHd m Hd' Hm')].
 Qed.
 
 Lemma ksorted_cons_lb a l : Forall (N.lt a) l -> ksorted l -> ksorted (a :: l).
@@ -727,7 +729,7 @@ Proof.
     + rewrite merge_iter_nil_r. exact Hd0.
     + unfold esorted in Hm. cbn [map fst] in Hm. pose proof Hm as Hm0. apply ksorted_tail in Hm as [Hm Hfm].
       rewrite merge_iter_cons. destruct (pk <? mk) eqn:E1.
-      * apply N.ltb_lt in E1. cbn [keys map fst]. constructor; [apply (IHd _ Hd Hm0)|].
+      * apply N.ltb_lt in E1. cbn [keys map fst]. constructor; [apply (IHd ((mk, mv) :: m) Hd Hm0)|].
         apply merge_lb; [exact Hfd|]. cbn [map fst]. constructor; [exact E1|].
         apply (Forall_lt_trans pk mk); [lia|exact Hfm].
       * apply N.ltb_ge in E1. destruct (mk <? pk) eqn:E2.
@@ -735,7 +737,7 @@ Proof.
            apply merge_lb; [|exact Hfm]. cbn [keys map fst]. constructor; [exact E2|].
            apply (Forall_lt_trans mk pk); [lia|exact Hfd].
         -- apply N.ltb_ge in E2. assert (mk = pk) by lia. subst mk.
-           apply ksorted_emit_app; [|apply (IHd _ Hd Hm)]. apply merge_lb; assumption.
+           apply ksorted_emit_app; [|apply (IHd m Hd Hm)]. apply merge_lb; assumption.
 Qed.
 
 (* two sorted dictionaries with the same lookups are equal *)
@@ -819,3 +821,304 @@ Qed.
 
 Lemma applied_empty s : applied s e_empty = flatten s.
 Proof. unfold applied. cbn. apply merge_iter_nil_r. Qed.
+
+(* ---- generic facts about filters on key-indexed lists ------------------------ *)
+
+Lemma filter_keys_lb {B} x (f : key * B -> bool) (l : list (key * B)) :
+  Forall (N.lt x) (map fst l) -> Forall (N.lt x) (map fst (filter f l)).
+Proof.
+  induction l as [|e l IH]; intros H; [constructor|]. cbn [map] in H. inversion H as [|? ? He Hl]; subst.
+  cbn [filter]. destruct (f e); [cbn [map]; constructor; [exact He|apply IH, Hl] | apply IH, Hl].
+Qed.
+
+Lemma filter_ksorted {B} (f : key * B -> bool) (l : list (key * B)) :
+  ksorted (map fst l) -> ksorted (map fst (filter f l)).
+Proof.
+  induction l as [|e l IH]; intros H; [constructor|]. cbn [map] in H. apply ksorted_tail in H as [Hs Hf].
+  cbn [filter]. destruct (f e); [cbn [map]; constructor; [apply IH, Hs | apply filter_keys_lb, Hf] | apply IH, Hs].
+Qed.
+
+Lemma d_get_filter (P : key -> bool) q (l : dict) :
+  d_get q (filter (fun e => P (fst e)) l) = if P q then d_get q l else None.
+Proof.
+  induction l as [|[k v] l IH]; [destruct (P q); reflexivity|].
+  cbn [filter fst]. destruct (P k) eqn:Ek; cbn [d_get].
+  - destruct (k =? q) eqn:E; [apply N.eqb_eq in E; subst q; rewrite Ek; reflexivity | exact IH].
+  - rewrite IH. destruct (k =? q) eqn:E; [apply N.eqb_eq in E; subst q; rewrite Ek; reflexivity | reflexivity].
+Qed.
+
+Lemma e_get_filter (P : key -> bool) q (l : list edit) :
+  e_get q (filter (fun e => P (fst e)) l) = if P q then e_get q l else None.
+Proof.
+  induction l as [|[k v] l IH]; [destruct (P q); reflexivity|].
+  cbn [filter fst]. destruct (P k) eqn:Ek; cbn [e_get].
+  - destruct (k =? q) eqn:E; [apply N.eqb_eq in E; subst q; rewrite Ek; reflexivity | exact IH].
+  - rewrite IH. destruct (k =? q) eqn:E; [apply N.eqb_eq in E; subst q; rewrite Ek; reflexivity | reflexivity].
+Qed.
+
+Lemma find_emit_skip (P : key -> bool) k v X :
+  P k = false -> find (fun e : kv => P (fst e)) (emit k v ++ X) = find (fun e => P (fst e)) X.
+Proof. intros H. destruct v; cbn [emit app find fst]; [rewrite H|]; reflexivity. Qed.
+
+(* a key predicate that no pending edit satisfies is answered from the flushed tree *)
+Lemma merge_find (P : key -> bool) : forall d m,
+  Forall (fun e : edit => P (fst e) = false) m ->
+  find (fun e => P (fst e)) (merge_iter d m) = find (fun e => P (fst e)) d.
+Proof.
+  induction d as [|[pk pv] d IHd].
+  - intros m Hm. cbn [merge_iter find]. induction Hm as [|[k v] m Hk _ IH]; [reflexivity|].
+    cbn [flat_map fst snd]. cbn [fst] in Hk. rewrite (find_emit_skip P k v _ Hk). exact IH.
+  - intros m Hm. induction Hm as [|[mk mv] m Hk Hm IHm].
+    + rewrite merge_iter_nil_r. reflexivity.
+    + cbn [fst] in Hk. rewrite merge_iter_cons. destruct (pk <? mk) eqn:E1.
+      * cbn [find fst]. destruct (P pk); [reflexivity|]. apply (IHd ((mk, mv) :: m)). constructor; assumption.
+      * destruct (mk <? pk) eqn:E2.
+        -- rewrite (find_emit_skip P mk mv _ Hk). exact IHm.
+        -- rewrite (find_emit_skip P mk mv _ Hk). cbn [find fst].
+           assert (mk = pk).
+           { destruct (N.lt_trichotomy pk mk) as [H|[H|H]]; [|symmetry; exact H|].
+             - apply N.ltb_lt in H. congruence.
+             - apply N.ltb_lt in H. congruence. }
+           subst mk. rewrite Hk. apply (IHd m Hm).
+Qed.
+
+(* ---- the side condition on histories ------------------------------------------- *)
+
+(* does this operation flush the buffer? (Put: the automatic flush above maxPending) *)
+Definition op_flushes (m : mmap) (o : mop) : bool :=
+  match o with
+  | MPut k v => Nat.ltb (m_maxp m) (e_count (e_put k (Some v) (m_edits m)))
+  | MFlush _ => true
+  | _ => false
+  end.
+
+(* Histories on which the code is right: no Revert is governed by a checkpoint
+   (creating the mutable map counts as one) that a flush has crossed.  `dirty` =
+   some flush happened since the last Checkpoint.  Decidable: it is computed by
+   running the model.  The two refuted Revert scenarios (checkpoint on an empty
+   buffer + flush + Revert; Revert, writes, Revert after a stashed checkpoint)
+   are exactly of the excluded kind: both revert across a flush. *)
+Fixpoint hist_ok (rb : list kv -> node) (m : mmap) (dirty : bool) (ops : list mop) : bool :=
+  match ops with
+  | [] => true
+  | o :: ops' =>
+    let m' := mop_step rb m o in
+    match o with
+    | MRevert => negb dirty && hist_ok rb m' dirty ops'
+    | MCheckpoint => hist_ok rb m' false ops'
+    | _ => hist_ok rb m' (dirty || op_flushes m o) ops'
+    end
+  end.
+
+Lemma applied_log_eq s a b : e_log a = e_log b -> applied s a = applied s b.
+Proof. intros H. unfold applied, e_view. rewrite H. reflexivity. Qed.
+
+Section Refines.
+  Variable rb : list kv -> node.
+  Hypothesis Hrb : rb_ok rb.
+
+  (* the refinement relation *)
+  Definition rinv (m : mmap) (s : astate) (dirty : bool) : Prop :=
+    wf_root (m_static m)
+    /\ fst s = applied (m_static m) (m_edits m)
+    /\ (e_cp (m_edits m) <= length (e_log (m_edits m)))%nat
+    /\ (dirty = false -> m_stash m = None /\ snd s = applied (m_static m) (e_revert (m_edits m))).
+
+  Lemma rb_applied s el : wf_root s -> wf_root (rb (applied s el)) /\ flatten (rb (applied s el)) = applied s el.
+  Proof. intros Hs. apply Hrb, applied_sorted, Hs. Qed.
+
+  Lemma flush_rinv deep m s dirty : rinv m s dirty -> rinv (flush rb deep m) s true.
+  Proof.
+    intros (Hwf & Hcur & Hcp & _). destruct (rb_applied (m_static m) (m_edits m) Hwf) as (Hw' & Hf').
+    unfold rinv, flush. cbn [m_static m_edits e_empty e_cp e_log length].
+    split; [exact Hw'|]. split; [|split; [lia|discriminate]].
+    rewrite Hcur. unfold applied at 2. rewrite Hf'. cbn [e_view e_log fold_left]. symmetry. apply merge_iter_nil_r.
+  Qed.
+
+  Lemma firstn_app_le {A} n (l x : list A) : (n <= length l)%nat -> firstn n (l ++ x) = firstn n l.
+  Proof. intros H. rewrite firstn_app. replace (n - length l)%nat with O by lia. cbn [firstn]. apply app_nil_r. Qed.
+
+  Lemma step_rinv m s dirty o :
+    rinv m s dirty -> (match o with MRevert => dirty = false | _ => True end) ->
+    rinv (mop_step rb m o) (a_step s (mop_abs o))
+         (match o with MRevert => dirty | MCheckpoint => false | _ => dirty || op_flushes m o end).
+  Proof.
+    intros Hinv Hok. pose proof Hinv as (Hwf & Hcur & Hcp & Hchk). destruct s as [cur chk]. cbn [fst snd] in *.
+    destruct o as [k v|k| | |deep]; cbn [mop_step mop_abs a_step fst snd op_flushes].
+    - (* Put *)
+      unfold put. cbn [m_maxp m_edits].
+      set (m1 := {| m_static := m_static m; m_edits := e_put k (Some v) (m_edits m);
+                    m_stash := m_stash m; m_maxp := m_maxp m |}).
+      assert (H1 : rinv m1 (d_put k v cur, chk) dirty).
+      { unfold rinv, m1. cbn [m_static m_edits m_stash fst snd e_put e_cp e_log].
+        split; [exact Hwf|]. split; [|split].
+        - rewrite Hcur. symmetry. apply (applied_put _ _ _ _ Hwf).
+        - rewrite app_length. lia.
+        - intros Hd. destruct (Hchk Hd) as (Hst & Hc). split; [exact Hst|]. rewrite Hc.
+          apply applied_log_eq. cbn [e_revert e_log e_cp]. symmetry. apply firstn_app_le, Hcp. }
+      destruct (Nat.ltb (m_maxp m) (e_count (e_put k (Some v) (m_edits m)))) eqn:Ef.
+      + rewrite orb_true_r. apply (flush_rinv false m1 _ dirty H1).
+      + rewrite orb_false_r. exact H1.
+    - (* Delete *)
+      rewrite orb_false_r. unfold rinv, delete. cbn [m_static m_edits m_stash fst snd e_put e_cp e_log].
+      split; [exact Hwf|]. split; [|split].
+      + rewrite Hcur. symmetry. apply (applied_del _ _ _ Hwf).
+      + rewrite app_length. lia.
+      + intros Hd. destruct (Hchk Hd) as (Hst & Hc). split; [exact Hst|]. rewrite Hc.
+        apply applied_log_eq. cbn [e_revert e_log e_cp]. symmetry. apply firstn_app_le, Hcp.
+    - (* Checkpoint *)
+      unfold rinv, checkpoint. cbn [m_static m_edits m_stash fst snd e_checkpoint e_cp e_log].
+      split; [exact Hwf|]. split; [|split].
+      + rewrite Hcur. apply applied_log_eq. reflexivity.
+      + lia.
+      + intros _. split; [reflexivity|]. rewrite Hcur. apply applied_log_eq.
+        cbn [e_revert e_log e_cp]. symmetry. apply firstn_all.
+    - (* Revert: only with no flush since the checkpoint *)
+      destruct (Hchk Hok) as (Hst & Hc). unfold revert. rewrite Hst.
+      unfold rinv. cbn [m_static m_edits m_stash fst snd e_revert e_cp e_log].
+      split; [exact Hwf|]. split; [exact Hc|]. split.
+      + rewrite firstn_length. lia.
+      + intros _. split; [reflexivity|]. rewrite Hc. apply applied_log_eq.
+        cbn [e_revert e_log e_cp]. rewrite firstn_firstn. rewrite Nat.min_id. reflexivity.
+    - (* explicit flush *)
+      rewrite orb_true_r. apply (flush_rinv deep m _ dirty Hinv).
+  Qed.
+
+  Lemma run_rinv ops : forall m s dirty,
+    rinv m s dirty -> hist_ok rb m dirty ops = true ->
+    exists dirty', rinv (fold_left (mop_step rb) ops m) (fold_left a_step (map mop_abs ops) s) dirty'.
+  Proof.
+    induction ops as [|o ops IH]; intros m s dirty Hinv Hok; [exists dirty; exact Hinv|].
+    cbn [fold_left map]. cbn [hist_ok] in Hok.
+    destruct o as [k v|k| | |deep].
+    - apply (IH _ _ _ (step_rinv m s dirty (MPut k v) Hinv I) Hok).
+    - apply (IH _ _ _ (step_rinv m s dirty (MDel k) Hinv I) Hok).
+    - apply (IH _ _ _ (step_rinv m s dirty MCheckpoint Hinv I) Hok).
+    - apply andb_true_iff in Hok as [Hd Hok]. apply negb_true_iff in Hd.
+      apply (IH _ _ _ (step_rinv m s dirty MRevert Hinv Hd) Hok).
+    - apply (IH _ _ _ (step_rinv m s dirty (MFlush deep) Hinv I) Hok).
+  Qed.
+
+  (* ---- reads under the invariant ----------------------------------------------- *)
+
+  Lemma rinv_get m s dirty q : rinv m s dirty -> m_get q m = d_get q (fst s).
+  Proof.
+    intros (Hwf & Hcur & _). rewrite Hcur, (applied_get q _ _ Hwf). unfold m_get.
+    destruct (e_get q (e_view (m_edits m))); [reflexivity|]. apply get_spec, Hwf.
+  Qed.
+
+  Lemma in_range_same lo hi k : in_range lo hi k = d_in_range lo hi k.
+  Proof. reflexivity. Qed.
+
+  Lemma rinv_iter_range m s dirty lo hi : rinv m s dirty -> m_iter_range lo hi m = d_range lo hi (fst s).
+  Proof.
+    intros (Hwf & Hcur & _). unfold m_iter_range. rewrite (iter_window_spec lo hi _ Hwf). rewrite Hcur.
+    pose proof (wf_root_sorted _ Hwf) as Hs. pose proof (e_view_sorted (m_edits m)) as He.
+    apply sorted_ext.
+    - apply merge_sorted; [apply filter_ksorted, Hs | apply filter_ksorted, He].
+    - apply filter_ksorted, applied_sorted, Hwf.
+    - intros q. rewrite merge_get by (first [apply filter_ksorted, Hs | apply filter_ksorted, He]).
+      unfold d_range. rewrite (e_get_filter (in_range lo hi)), !(d_get_filter (d_in_range lo hi)).
+      rewrite (applied_get q _ _ Hwf). rewrite in_range_same. destruct (d_in_range lo hi q); [|reflexivity].
+      reflexivity.
+  Qed.
+
+  Lemma rinv_iter_all m s dirty : rinv m s dirty -> m_iter_all m = fst s.
+  Proof.
+    intros H. unfold m_iter_all. rewrite (rinv_iter_range m s dirty None None H).
+    unfold d_range. apply filter_all_true. rewrite Forall_forall. reflexivity.
+  Qed.
+
+  Definition no_pending_with (P : key -> bool) (m : mmap) : Prop :=
+    Forall (fun e : edit => P (fst e) = false) (e_view (m_edits m)).
+
+  Lemma seek_prefix_miss pre a l :
+    Forall (fun e : edit => (pre (fst e) =? a) = false) l ->
+    match e_seek_prefix pre a l with Some (k, _) => (pre k =? a) = false | None => True end.
+  Proof.
+    induction 1 as [|[k v] l Hk _ IH]; [exact I|]. cbn [e_seek_prefix]. cbn [fst] in Hk.
+    destruct (pre k <? a); [exact IH | exact Hk].
+  Qed.
+
+  Lemma rinv_get_prefix m s dirty pre a :
+    rinv m s dirty -> pre_monotone pre -> no_pending_with (fun k => pre k =? a) m ->
+    m_get_prefix pre a m = d_get_prefix pre a (fst s) /\ m_has_prefix pre a m = d_has_prefix pre a (fst s).
+  Proof.
+    intros (Hwf & Hcur & _) Hp Hno. unfold no_pending_with in Hno.
+    pose proof (seek_prefix_miss pre a _ Hno) as Hmiss.
+    assert (Hfind : d_get_prefix pre a (fst s) = d_get_prefix pre a (flatten (m_static m))).
+    { rewrite Hcur. unfold d_get_prefix, applied. apply (merge_find (fun k => pre k =? a) _ _ Hno). }
+    split.
+    - unfold m_get_prefix. rewrite Hfind, <- (get_prefix_spec pre a _ Hp Hwf).
+      destruct (e_seek_prefix pre a (e_view (m_edits m))) as [[k v]|]; [rewrite Hmiss|]; reflexivity.
+    - assert (Hex : forall l : dict, d_has_prefix pre a l = match d_get_prefix pre a l with Some _ => true | None => false end).
+      { intros l. unfold d_has_prefix, d_get_prefix. induction l as [|e l IHl]; [reflexivity|].
+        cbn [existsb find]. destruct (pre (fst e) =? a); [reflexivity|exact IHl]. }
+      unfold m_has_prefix. rewrite Hex, Hfind, <- Hex, <- (has_prefix_spec pre a _ Hp Hwf).
+      destruct (e_seek_prefix pre a (e_view (m_edits m))) as [[k v]|]; [rewrite Hmiss|]; reflexivity.
+  Qed.
+
+  Lemma rinv_iter_key_range m s dirty lo hi :
+    rinv m s dirty -> e_view (m_edits m) = [] -> start_past_end_open_stop lo hi (m_static m) = false ->
+    m_iter_key_range lo hi m = Some (d_range lo hi (fst s)).
+  Proof.
+    intros (Hwf & Hcur & _) He Hok. unfold m_iter_key_range. rewrite (iter_key_range_spec lo hi _ Hwf Hok).
+    rewrite Hcur. unfold applied. rewrite He, merge_iter_nil_r. reflexivity.
+  Qed.
+
+  (* THE REFINEMENT: for every operation sequence satisfying the (decidable) side
+     condition, every read of the mutable map is the read of the dictionary
+     obtained by applying the operations to flatten t. The hypotheses on the
+     prefix reads and on IterKeyRange are exactly the negations of the refuted
+     configurations (a pending edit with that prefix; any pending edit). *)
+  Theorem mutable_refines t maxp ops :
+    wf_root t -> hist_ok rb (mutate t maxp) false ops = true ->
+    let m := run_m rb t maxp ops in
+    let d := dict_after t ops in
+    (forall q, m_get q m = d_get q d /\ m_has q m = d_has q d)
+    /\ m_iter_all m = d
+    /\ (forall lo hi, m_iter_range lo hi m = d_range lo hi d)
+    /\ (wf_root (materialize rb m) /\ flatten (materialize rb m) = d)
+    /\ (forall pre a, pre_monotone pre -> no_pending_with (fun k => pre k =? a) m ->
+          m_get_prefix pre a m = d_get_prefix pre a d /\ m_has_prefix pre a m = d_has_prefix pre a d)
+    /\ (forall lo hi, e_view (m_edits m) = [] -> start_past_end_open_stop lo hi (m_static m) = false ->
+          m_iter_key_range lo hi m = Some (d_range lo hi d)).
+  Proof.
+    intros Hwf Hok m d.
+    assert (H0 : rinv (mutate t maxp) (flatten t, flatten t) false).
+    { unfold rinv, mutate. cbn [m_static m_edits m_stash fst snd e_empty e_cp e_log length].
+      split; [exact Hwf|]. split; [symmetry; apply applied_empty|]. split; [lia|].
+      intros _. split; [reflexivity|]. symmetry. apply applied_empty. }
+    destruct (run_rinv ops _ _ _ H0 Hok) as (dirty' & Hinv).
+    fold (run_m rb t maxp ops) in Hinv. fold m in Hinv.
+    change (fold_left a_step (map mop_abs ops) (flatten t, flatten t)) with (a_run (flatten t) (map mop_abs ops)) in Hinv.
+    assert (Hd : d = fst (a_run (flatten t) (map mop_abs ops))) by reflexivity.
+    rewrite Hd. split; [|split; [|split; [|split; [|split]]]].
+    - intros q. split; [apply (rinv_get _ _ _ q Hinv)|].
+      pose proof Hinv as (Hw & _). rewrite (m_has_get q m Hw), (rinv_get _ _ _ q Hinv). reflexivity.
+    - apply (rinv_iter_all _ _ _ Hinv).
+    - intros lo hi. apply (rinv_iter_range _ _ _ lo hi Hinv).
+    - destruct Hinv as (Hw & Hcur & _). unfold materialize. rewrite Hcur. apply (rb_applied _ _ Hw).
+    - intros pre a Hp Hno. apply (rinv_get_prefix _ _ _ pre a Hinv Hp Hno).
+    - intros lo hi He Hs. apply (rinv_iter_key_range _ _ _ lo hi Hinv He Hs).
+  Qed.
+End Refines.
+
+(* the side condition is satisfiable, also with flushes, checkpoints and reverts *)
+Example hist_ok_example :
+  hist_ok rb_leaf (mutate (Leaf [(16, 1)]) 2) false
+          [MPut 1 1; MPut 2 2; MPut 3 3; MCheckpoint; MDel 2; MPut 9 9; MRevert; MFlush true; MCheckpoint; MPut 4 4; MRevert] = true.
+Proof. vm_compute. reflexivity. Qed.
+
+(* ... and excludes the two refuted Revert histories *)
+Example hist_ok_excludes :
+  hist_ok rb_leaf (mutate (Leaf [(16, 1)]) 2) false [MCheckpoint; MPut 1 1; MPut 2 2; MPut 3 3; MRevert] = false
+  /\ hist_ok rb_leaf (mutate (Leaf [(16, 1)]) 2) false
+       [MPut 1 1; MCheckpoint; MPut 2 2; MPut 3 3; MPut 4 4; MRevert; MPut 5 5; MRevert] = false.
+Proof. vm_compute. split; reflexivity. Qed.
+
+Lemma rb_leaf_ok : rb_ok rb_leaf.
+Proof.
+  intros l Hs. split; [|reflexivity]. destruct l as [|e l]; [left; reflexivity|].
+  right. split; [reflexivity|exact Hs].
+Qed.
